@@ -71,8 +71,8 @@ m("M12_wal_truncate_no_sync", ["C02"], CORE+"index/wal.rs",
   "  pub fn truncate(&mut self) -> Result<()> {\n    self.file.set_len(0)?;\n    self.file.seek(SeekFrom::Start(0))?;\n    Ok(())\n  }",
   "log truncation (rollback / after commit) is not synced")
 m("M13_rollback_keeps_wal", ["C04", "C02"], CORE+"api/writer.rs",
-  "    self.pending_ops.clear();\n    self.wal.truncate()?;\n    Ok(())\n  }\n}\n\nimpl Drop",
-  "    self.pending_ops.clear();\n    Ok(())\n  }\n}\n\nimpl Drop",
+  "    self.pending_ops.clear();\n    self.wal.truncate()?;\n    Ok(())\n  }\n\n  /// Marks the current end",
+  "    self.pending_ops.clear();\n    Ok(())\n  }\n\n  /// Marks the current end",
   "rollback does not truncate the log")
 m("M14_commit_error_no_manifest_restore", ["C03"], CORE+"api/writer.rs",
   "      let manifest_restored = if let Err(manifest_err) =\n        manifest_snapshot.store(self.inner.storage.as_ref(), &manifest_path)\n      {",
@@ -127,9 +127,9 @@ m("M26_http_error_shape", ["C24"], "searchlite-http/src/lib.rs",
   "    return (StatusCode::GATEWAY_TIMEOUT, \"request timed out\").into_response();",
   "timeouts answered with a plain-text body instead of the structured error")
 m("M27_http_rollback_on_bad_doc", ["C23"], "searchlite-http/src/lib.rs",
-  "      if let Err(err) = schema.validate_document(doc) {\n        return Err(HttpError::bad_request(\"add_failed\", err.to_string()));\n      }",
-  "      if false {\n        let err = schema.validate_document(doc).unwrap_err();\n        return Err(HttpError::bad_request(\"add_failed\", err.to_string()));\n      }",
-  "write handlers no longer validate before queueing (a bad document rolls the whole log back)", count=2)
+  "        if let Err(rollback_err) = writer.rollback_to(&mark) {",
+  "        if let Err(rollback_err) = writer.rollback() {",
+  "write handlers roll the whole log back (not to their savepoint) when a document cannot be queued", count=2)
 m("M28_wasm_commit_no_flush", ["C27"], "searchlite-wasm/src/wasm.rs",
   "    writer.commit().map_err(to_js_error)?;\n    self.storage.flush().await.map_err(to_js_error)?;\n    Ok(())",
   "    writer.commit().map_err(to_js_error)?;\n    Ok(())",
@@ -171,6 +171,18 @@ m("M37_add_no_lock", ["C05"], CORE+"api/writer.rs",
   "  pub fn add_document(&mut self, doc: &Document) -> Result<u32> {",
   "add_document does not take the writer lock (negative control for serializability: appends are atomic per primitive)", negative=True)
 # negative controls: must NOT raise an alarm
+m("M38_rollback_to_grows_log", ["C04", "C02"], CORE+"api/writer.rs",
+  "    if mark.wal_len < self.wal.len()? {\n      self.wal.truncate_to(mark.wal_len)?;\n    }",
+  "    self.wal.truncate_to(mark.wal_len)?;",
+  "rollback_to truncates to the marked length even when the log is shorter (zero-extends it)")
+m("M39_top_hits_capacity_from_request", ["C24"], CORE+"query/aggs/mod.rs",
+  "  let cap = limit.min(total_hits).saturating_add(1);",
+  "  let cap = limit.min(total_hits.max(target.size.max(1))).saturating_add(1);",
+  "merge_top_hits reserves heap capacity from the request's size (allocation abort)")
+m("M40_rollback_to_keeps_queue", ["C04", "C02"], CORE+"api/writer.rs",
+  "    self.pending_ops.truncate(mark.ops);\n",
+  "",
+  "rollback_to cuts the log but keeps the handle's in-memory queue")
 m("N01_no_commit_marker", ["C01", "C02", "C04"], CORE+"api/writer.rs",
   "      self.wal.append_commit()?;\n      self.wal.sync()?;\n      Ok(())",
   "      self.wal.sync()?;\n      Ok(())",
